@@ -385,7 +385,7 @@ impl Shape {
             self.dims.clone(),
         )
     }
-    /// rough cost estimate (runs), for heavy-first scheduling
+    /// rough cost estimate (runs), for cheap-first scheduling
     fn cost(&self) -> usize {
         let coeffs = if self.cfg.ext() { D } else { 1 };
         let w: usize = self.dims.iter().map(|d| d.1 * coeffs + 4).sum();
@@ -424,8 +424,15 @@ fn dimension_vectors(quick: bool) -> Vec<Vec<(usize, usize)>> {
                 }
             }
         }
-        for (h1, h2) in [(32, 2), (2, 32), (32, 16)] {
-            out.push(vec![(h1, 3), (h2, 9)]);
+        // pairs involving height 32: both orders × 2 width pairs, and 32/32 × 4 width pairs
+        for &h in &hs {
+            for (w1, w2) in [(3, 9), (8, 1)] {
+                out.push(vec![(32, w1), (h, w2)]);
+                out.push(vec![(h, w1), (32, w2)]);
+            }
+        }
+        for (w1, w2) in [(1, 3), (8, 8), (9, 8), (3, 9)] {
+            out.push(vec![(32, w1), (32, w2)]);
         }
         // non-power-of-two heights admitted by the native scheme (ceil(max/2^k) ladder)
         out.push(vec![(5, 2), (3, 3)]);
@@ -494,20 +501,17 @@ fn dimension_vectors(quick: bool) -> Vec<Vec<(usize, usize)>> {
 }
 
 fn configs(quick: bool) -> Vec<Cfg> {
-    if quick {
-        vec![Cfg::A2B, Cfg::A2E, Cfg::A2BH4, Cfg::A2EH4, Cfg::A4B, Cfg::A4E]
-    } else {
-        vec![
-            Cfg::A2B,
-            Cfg::A2E,
-            Cfg::A2BH4,
-            Cfg::A2EH4,
-            Cfg::A2BH3,
-            Cfg::A2EH3,
-            Cfg::A4B,
-            Cfg::A4E,
-        ]
-    }
+    let _ = quick; // both tiers enumerate every scheme; the tiers differ in the dimension vectors
+    vec![
+        Cfg::A2B,
+        Cfg::A2E,
+        Cfg::A2BH4,
+        Cfg::A2EH4,
+        Cfg::A2BH3,
+        Cfg::A2EH3,
+        Cfg::A4B,
+        Cfg::A4E,
+    ]
 }
 
 fn shapes(quick: bool) -> Vec<Shape> {
@@ -1230,8 +1234,9 @@ fn main() {
         all.retain(|s| s.dims.len() <= m);
     }
     let total_shapes = all.len();
-    // heavy shapes first: the tail of the parallel loop is then made of cheap shapes
-    all.sort_by_key(|s| std::cmp::Reverse(s.cost()));
+    // cheap shapes first: if the wall-clock budget runs out on a slow machine, what is cut is
+    // the largest shapes (reported: exhaustive=false, shapes_cut_by_budget), never the small ones
+    all.sort_by_key(|s| s.cost());
 
     let eng = Engine {
         ctx: &ctx,
